@@ -257,8 +257,12 @@ class ClsNode(Node):
         ann: t.Dict[str, t.Any] = {}
         ns: t.Dict[str, t.Any] = {'__annotations__': ann, '__module__': 'pv.generated', '__qualname__': self.name}
         kwm = self.cs.get('kw_marker')
+        base_node = getattr(self, 'base_node', None)
+        base_fields = {bf['name']: bf for bf in base_node.cs['fields']} if base_node is not None else {}
         for (i, f) in enumerate(self.declared):
             fs = self.cs['fields'][i]
+            if base_fields.get(f.name) == fs:
+                continue        # inherited as it is from the base variant
             if kwm is not None and i == kwm:
                 ann['_'] = pane.KW_ONLY
             ann[f.name] = f.node.pytype()
@@ -307,7 +311,7 @@ class ClsNode(Node):
                     raise PostInitBoom("tok_post_init_boom")
             ns['__post_init__'] = __post_init__
         opts = {k: (tuple(v) if isinstance(v, list) else v) for (k, v) in self.opts.items()}
-        cls = type(self.name, (pane.PaneBase,), ns, **opts)
+        cls = type(self.name, (base_node.pytype() if base_node is not None else pane.PaneBase,), ns, **opts)
         if not FRESH[0]:
             _CLASS_CACHE[self.key] = cls
         return cls
@@ -487,6 +491,10 @@ class TaggedNode(Node):
         self.layout: t.Any = lay if isinstance(lay, str) else tuple(lay)   # 'internal' | 'external' | ('adjacent', t, c)
         self.tag: str = spec[2]
         self.variants: t.List[ClsNode] = [ClsNode(('cls', cs)) for cs in spec[3]]
+        for (vn, cs) in zip(self.variants, spec[3]):
+            if cs.get('base') is not None:
+                # a variant that is a *subclass* of an earlier variant (its fields: the base's, the tag overridden in place, new ones behind)
+                vn.base_node = self.variants[cs['base']]  # type: ignore
         self.conds: t.Tuple[t.Any, ...] = tuple(spec[4]) if len(spec) > 4 and spec[4] else ()   # conditions written after Tagged(...)
         self.tagvals: t.List[t.Any] = []
         for vnode in self.variants:
@@ -714,12 +722,23 @@ def class_specs(draw, field_types: st.SearchStrategy[t.Any], *, max_fields: int 
     return ('cls', cs)
 
 
+def derived_variant(base: t.Dict[str, t.Any], base_index: int, tag: str, tagval: t.Any) -> t.Dict[str, t.Any]:
+    """Variant spec for a subclass of variant ``base``: same fields with the tag literal overridden, plus one field of its own."""
+    fields = [dict(f) for f in base['fields']]
+    for f in fields:
+        if f['name'] == tag:
+            f['type'] = ('lit', (tagval,))
+            f['default'] = ['value', tagval]
+    fields.append({'name': 'inner', 'type': ('s', 'float'), 'default': ['value', 0.5]})
+    return {'fields': fields, 'opts': dict(base['opts']), 'name': f"{base['name']}Sub", 'base': base_index}
+
+
 @st.composite
 def tagged_specs(draw, field_types: st.SearchStrategy[t.Any]) -> t.Any:
     tag = draw(st.sampled_from(['tag', 'kind', 'ty']))
     nvar = draw(st.integers(2, 3))
     tagkind = draw(st.sampled_from(['str', 'int']))
-    vals = ['a', 'b', 'c'] if tagkind == 'str' else [1, 2, 3]
+    vals = ['a', 'b', 'c', 'd'] if tagkind == 'str' else [1, 2, 3, 4]
     layout: t.Any = draw(st.sampled_from(['internal', 'external', ['adjacent', 't', 'c']]))
     variants = []
     shared = draw(st.lists(st.tuples(st.sampled_from(['x', 'y', 'val']), field_types), max_size=2, unique_by=lambda p: p[0]))
@@ -747,4 +766,6 @@ def tagged_specs(draw, field_types: st.SearchStrategy[t.Any]) -> t.Any:
         if draw(st.integers(0, 3)) == 3:
             vs['annotated'] = True
         variants.append(vs)
+    if draw(st.integers(0, 3)) == 3:
+        variants.append(derived_variant(variants[0], 0, tag, vals[nvar]))
     return ('tagged', layout, tag, tuple(variants))
